@@ -8,7 +8,7 @@ set -o pipefail
 export GOFLAGS=-mod=mod GOPROXY=off; unset GOSUMDB
 SEED=$1; PROP=$2; DEMODIR=${3:-.}
 S=$(mktemp -d /tmp/seedtest-XXXXXX)
-trap 'rm -rf "$S"; git -C /repo checkout -- . 2>/dev/null' EXIT
+trap 'rm -rf "$S"' EXIT
 rsync -a --exclude .git /repo/ "$S/"
 cd "$S" || exit 2
 cp "$SEED/demo_test.go" "$S/$DEMODIR/zz_seed_demo_test.go"
@@ -23,10 +23,9 @@ echo "== demo WITH patch"
 go test -vet=off -count=1 -run 'Seed|Demo|C[0-9][0-9]' ./$DEMODIR/ 2>&1 | tail -3; r2=${PIPESTATUS[0]}
 echo "demo-without rc=$r0 (want 0)  suite-with rc=$r1 (want 0)  demo-with rc=$r2 (want !=0)"
 cd /
-echo "== check $PROP on /repo WITH patch"
-git -C /repo apply "$SEED/patch.diff" || { echo APPLY-TO-REPO-FAILED; exit 2; }
-timeout 1500 /verif/run.sh check -property "$PROP" -tier quick 2>/tmp/seedtest-check.err | grep -v "^KNOWN-FINDING" | tail -5
+echo "== check $PROP on the patched scratch copy (BKLSYM_REPO=$S; /repo is not touched)"
+rm -f "$S/$DEMODIR/zz_seed_demo_test.go"
+BKLSYM_REPO="$S" timeout 1500 /verif/run.sh check -property "$PROP" -tier quick 2>/tmp/seedtest-check.err | grep -v "^KNOWN-FINDING" | tail -5
 rc=${PIPESTATUS[0]}
 grep -E "^confirmed|discrepancy|INCONCLUSIVE" /tmp/seedtest-check.err | head -5
 echo "check exit=$rc"
-git -C /repo checkout -- .
